@@ -2,21 +2,27 @@
 
 package actor
 
-import "github.com/kercylan98/vivid/internal/scheduler"
+import (
+	"reflect"
+
+	"github.com/kercylan98/vivid/internal/scheduler"
+)
 
 // Accessors of the C07 (Start/Stop) harness: read-only views of the lifecycle state of a System.
 
-// XVSysStatus returns s.status (0 ready, 1 start, 2 stop). It takes statusLock when it is free; when a
-// blocked goroutine holds it (the defect the check looks for) it reads without the lock.
+// XVSysStatus returns s.status (0 ready, 1 start, 2 stop). The field is read through reflection and WITHOUT the status
+// lock: the accessor must not depend on how the lock field is called (a rename is a refactoring, not a change of
+// behaviour), and every caller reads it at a point ordered after the calls it looks at (all controlled threads parked /
+// the real calls have returned and handed over through a channel).
 func XVSysStatus(s *System) int32 {
-	if s.statusLock.TryLock() {
-		defer s.statusLock.Unlock()
-	}
-	return s.status
+	return int32(reflect.ValueOf(s).Elem().FieldByName("status").Int())
 }
 
 // XVSysHasCtx reports whether the root context has been assigned (s.Context != nil).
 func XVSysHasCtx(s *System) bool { return s.Context != nil }
+
+// XVSysHasCluster reports whether the cluster context has been assigned (s.clusterContext != nil).
+func XVSysHasCluster(s *System) bool { return s.clusterContext != nil }
 
 // XVSysCtxDone reports whether the system's context is cancelled.
 func XVSysCtxDone(s *System) bool { return s.options.Context.Err() != nil }
